@@ -1,6 +1,7 @@
 import Cellml.Engine.Num
 import Cellml.Engine.Logger
 import Cellml.Engine.Equiv
+import Cellml.Engine.Units
 open Cellml
 
 /-- line-protocol loop: one answer per input line -/
@@ -30,6 +31,7 @@ def main (args : List String) : IO UInt32 := do
   let stdout ← IO.getStdout
   match args with
   | ["num"] => loop stdin stdout numLine; return 0
+  | ["units"] => loop stdin stdout Engine.Units.answer; return 0
   | ["equiv"] => loop stdin stdout Engine.Equiv.answer; return 0
   | ["logger"] => loopS stdin stdout Engine.Logger.stepLine ([] : Engine.Logger.Loggers); return 0
   | ["num-enum", n] =>
